@@ -67,6 +67,27 @@ def _gen_shard0(arg):
     return {'tlc': (r.distinct, r.generated, r.depth, r.wall), 'recs': recs, 'types': types}
 
 
+def _calls_shard(arg):
+    return dc.safe(_calls_shard0, arg)
+
+
+def _calls_shard0(arg):
+    tier, shard, nshards = arg
+    r = run_tlc('Gen_Datatypes', 'Gen_Datatypes_calls.cfg', workers=1, timeout=1100,
+                env={'DT_TIER': 'x-' + tier, 'DT_SHARD': shard, 'DT_NSHARDS': nshards,
+                     'JAVA_TOOL_OPTIONS': '-XX:ParallelGCThreads=2'})
+    if r.violated or not r.ok:
+        raise MachineryError(f'Gen_Datatypes(calls) shard {shard}: {r.violated or r.error}\n{r.out[-2500:]}')
+    recs = []
+    types = 0
+    for rec in r.printed('CALLS'):
+        types += 1
+        node = dc.CommandNode(rec['dt'])
+        for call in rec['calls']:
+            recs.append(node.call(call['a'], call['r'], {'via': 'enumerated'}))
+    return {'tlc': (r.distinct, r.generated, r.depth, r.wall), 'recs': recs, 'types': types}
+
+
 def _rand_records(arg):
     return dc.safe(_rand_records0, arg)
 
@@ -83,12 +104,27 @@ def _rand_records0(arg):
             conc = dc.rand_valid(rnd, dt, obj)
             av = dc.alpha_internal(conc, dt)
             recs += dc.rt_records(obj, reb, dt, av, conc, {'via': 'random', 'conc': repr(conc)[:300]})
+        if rnd.random() < 0.5:        # a command with this type as argument and another random type as result (or none)
+            none = {'k': 'none'}
+            rdt = none if rnd.random() < 0.25 else dc.rand_type(rnd, rnd.choice((0, 0, 1, 2)), open_strings=False)
+            adt = none if rnd.random() < 0.25 else dt
+            if dc.has_limit(adt) or dc.has_limit(rdt) or (adt is dt and dt['k'] == 'string' and dt['maxc'] == dc.NOLIM and dt['minc'] > 0):
+                continue
+            node = dc.CommandNode({'k': 'command', 'arg': adt, 'res': rdt})
+            for _ in range(3):
+                a_conc = None if node.arg is None else dc.rand_valid(rnd, adt, node.client_type.argument)
+                r_conc = None if node.res is None else dc.rand_valid(rnd, rdt, node.res)
+                a = dc.NULL if node.arg is None else dc.alpha_internal(a_conc, adt)
+                r = dc.NULL if node.res is None else dc.alpha_internal(r_conc, rdt)
+                recs.append(node.call_concrete(a, a_conc, r, r_conc, {'via': 'random', 'conc': repr((a_conc, r_conc))[:300]}))
     return recs
 
 
 def _kids(r):
     """the same law on the elements of a container value"""
     res = []
+    if r['kind'] == 'rt.exec':
+        return res
     for sdt, sav in dc.rt_children(r['dt'], r['v']):
         obj = dc.build_type(sdt)
         conc = dc.concrete(sav, sdt, obj, internal=True)
@@ -107,6 +143,8 @@ def _got(r):
         return cls(r['v1']) + '/' + cls(r['v2'])
     if k == 'rt.text':
         return cls(r['v3']) if r['ts'] else 'to_string raised'
+    if k == 'rt.exec':
+        return cls(r['ga']) + '/' + cls(r['gr'])
     return cls(r['cs'])
 
 
@@ -121,6 +159,8 @@ def _shape(r):
             return 'struct(%s;%d)' % (','.join(tk(m['t']) for m in dt['mem']), len(dt['opt']))
         if k == 'string':
             return 'string%s' % ('' if dt['maxc'] != dc.NOLIM or dt['minc'] == 0 else '-open')
+        if k == 'command':
+            return 'command(%s->%s)' % (tk(dt['arg']), tk(dt['res']))
         return k
     return (r['kind'], tk(r['dt']), _got(r))
 
@@ -135,6 +175,7 @@ def run(chk):
     for m in ('Datatypes', 'Gen_Datatypes', 'Trace_Datatypes'):
         sany(m)
     chk.add_tlc(model_check('Datatypes', 'MC_Datatypes_rt.cfg', timeout=1100, workers=1 if quick else None))
+    chk.add_tlc(model_check('Datatypes', 'MC_Datatypes_cmd.cfg', timeout=1100, workers=1))
 
     n = NSHARDS[chk.tier]
     recs = []
@@ -144,6 +185,13 @@ def run(chk):
         chk.transitions += g
         chk.notes.setdefault('tlc_runs', []).append({'distinct': d, 'generated': g, 'depth': dep, 'wall_s': round(wall, 1)})
         chk.notes['datatype_trees'] = chk.notes.get('datatype_trees', 0) + res['types']
+        recs += res['recs']
+    # commands: every call TLC enumerated, through the real SecopClient.execCommand
+    for res in pool_map(_calls_shard, [(chk.tier, s, 2) for s in range(2)], chunksize=1):
+        d, g, dep, wall = res['tlc']
+        chk.states += d
+        chk.transitions += g
+        chk.notes['command_types'] = chk.notes.get('command_types', 0) + res['types']
         recs += res['recs']
     # spec -> code: the exported form must be what TLC printed (the judge re-derives it as well)
     for r in recs:
@@ -169,19 +217,27 @@ def run(chk):
     failing = []
     for r, v in zip(recs, verdicts):
         chk.impl_traces += 1
-        chk.case(hash((dc.key(r['dt']), dc.key(r['v']), r.get('conc'), r['kind'])), True)
+        chk.case(hash((dc.key(r['dt']), dc.key(r.get('v', [r.get('a'), r.get('r')])), r.get('conc'), r['kind'])), True)
         if v is not None:
             if r.get('matches_printed') is True and v.startswith('export'):
                 raise MachineryError('Gen_Datatypes and Trace_Datatypes disagree on Export: ' + json.dumps(r)[:1000])
             failing.append(r)
     chk.sample({'value': dc.show(recs[5]['v']), 'type': dc.show_type(recs[5]['dt']),
-                'records': [{k: v for k, v in r.items() if k not in ('dt', 'v', 'via')} for r in recs[4:8] if r['v'] == recs[5]['v']]})
+                'records': [{k: v for k, v in r.items() if k not in ('dt', 'v', 'via')} for r in recs[4:8] if r.get('v') == recs[5]['v']]})
     groups = {}
     for r in failing:
         groups.setdefault(_shape(r), []).append(r)
     chk.notes['failing_records'] = len(failing)
     for root, clause, top in dc.localise(chk, [g[0] for g in groups.values()], _kids):
         dt = root['dt']
+        if root['kind'] == 'rt.exec':
+            chk.violation({'module': 'Datatypes', 'kind': 'command', 'clause': clause, 'argument': dt['arg']['k'],
+                           'result': dt['res']['k'], 'got': _got(root)},
+                          {'record': {k: root[k] for k in dc.SPEC_FIELDS if k in root}, 'type': dc.show_type(dt),
+                           'argument': dc.show(root['a']), 'result': dc.show(root['r']), 'clause': clause,
+                           'driver_received': dc.show_outcome(root['ga']), 'caller_got': dc.show_outcome(root['gr']),
+                           'seen_in': {'via': root.get('via'), 'conc': root.get('conc')}})
+            continue
         sig = {'module': 'Datatypes', 'kind': dt['k'], 'clause': clause, 'got': _got(root)}
         # structural fact about the type (not a verdict): is the JSON form of a leaf value its internal form?
         sig['wire_form'] = 'differs-from-internal' if dt['k'] in ('enum', 'blob', 'scaled') else 'as-internal'
@@ -201,6 +257,14 @@ def run(chk):
 def replay(chk, rep):
     d = rep['detail']
     r = d['record']
+    if r['kind'] == 'rt.exec':
+        node = dc.CommandNode(r['dt'])
+        rec = node.call(r['a'], r['r'])
+        print('command :', dc.show_type(r['dt']), ' client side:', repr(node.client_type))
+        print('argument:', dc.show(r['a']), '-> driver received', dc.show_outcome(rec['ga']), repr(node.received))
+        print('result  :', dc.show(r['r']), '-> caller got', dc.show_outcome(rec['gr']))
+        print('TLC verdict:', dc.judge(chk, [rec])[0] or 'allowed', ' recorded:', d.get('clause'))
+        return 0
     dt, av = r['dt'], r['v']
     obj = dc.build_type(dt)
     conc = dc.concrete(av, dt, obj, internal=True)
